@@ -189,6 +189,22 @@ pub fn check_artifacts(sc: &E2Scenario, before: &Tree, after: &Tree, listed: &[S
                 );
                 break;
             }
+            // 2b. a named segment starts at an identifier/keyword of the generated text
+            if s.name.is_some() {
+                let line = gen_lines[s.gen_line];
+                let here = at_col16(line, s.gen_col).and_then(|r| r.chars().next());
+                let before = if s.gen_col == 0 { None } else { at_col16(line, s.gen_col - 1).and_then(|r| r.chars().next()) };
+                let is_id = |c: char| c.is_ascii_alphanumeric() || c == '_' || c == '$';
+                let ok = here.is_some_and(|c| is_id(c) && !c.is_ascii_digit()) && !before.is_some_and(is_id);
+                if !ok {
+                    rep.violate(
+                        &["C06"],
+                        "C06.2-named-segment-not-at-identifier",
+                        format!("{map_path}: named segment at generated {}:{} does not start at an identifier ({:?})", s.gen_line, s.gen_col, at_col16(line, s.gen_col).map(|r| r.chars().take(20).collect::<String>())),
+                    );
+                    break;
+                }
+            }
             // 5. name = the token at the original position
             if let Some(ni) = s.name {
                 if ni < 0 || ni as usize >= names.len() {
